@@ -180,7 +180,10 @@ def check(prop, tier, seed):
                             % (m["evaluations"], distinct))
 
     cov = {"evaluations": int(m["evaluations"]), "distinct_nontrivial": int(distinct),
-           "rule": mod.RULE, "samples": m["samples"] or ["<none>"],
+           "rule": mod.RULE + ("" if getattr(mod, "NO_OPT_SHARDS", False) else
+                               " Interpreter dimension: one extra shard per kind of the plan runs under `python -O` "
+                               "(assert statements compiled away), on case indices of its own."),
+           "samples": m["samples"] or ["<none>"],
            "monitor_evaluations": dict(m["monitors"]), "classes": dict(sorted(m["counters"].items())),
            "discarded": dict(m["discards"]), "fp_warnings_recorded": dict(m["fp_warnings"]),
            "worst_observed": m["worst"], "shards": m["shards"], "shard_cpu_s": round(m["shard_wall_s"], 1),
